@@ -27,7 +27,8 @@ def metaContent : Node :=
     can write ASCII (so that it can write `&#…;`): the bytes are the strict encoding of the replaced string. -/
 theorem encodeWith_total (C : Codec) (h : C.AsciiOK) (s : PStr) :
     encodeWith C s = .bytes (C.enc (xmlcharrefreplace C s)) := by
-  simp only [pyEncode, firstBad_none C _ 0 (xcr_encodable C h s)]
+  show pyEncode C .xmlcharrefreplace s = _
+  rw [pyEncode_nonstrict C h _ (by decide), handled_xcr]
 
 /-- All three entry points return bytes, whatever the tree, the indentation and the target encoding
     (`Tag.encode`: element.py `u.encode(encoding, errors)` with the default `errors="xmlcharrefreplace"`;
